@@ -125,7 +125,90 @@ def sdIn (info pkg : List Char) : SDIn :=
     hdrSize := rd32 info 8, algID := rd32 info (12 + 8), keySize := rd32 info (12 + 16),
     pkgSize := rd32 pkg 0 + 4294967296 * rd32 pkg 4 }
 
+def optN (i : Int) : Option Nat := if i < 0 then none else some i.toNat
+
+def showO {α : Type} (f : α → String) : Outcome α → String
+  | .ok a => f a
+  | .err => "E_SITE"
+  | .panic => "PANIC"
+
+def b01 (b : Bool) : String := if b then "1" else "0"
+
+def ints (s : String) : Option (List Int) := if s = "-" then some [] else (s.splitOn ",").mapM (·.toInt?)
+
+def stepSites (w : List String) : Option String :=
+  match w with
+  | ["st", idx, nXf, fp, fid, nf, bp, bid, nb, np, nid, nn] =>
+    match [idx, nXf, fp, fid, nf, bp, bid, nb, np, nid, nn].mapM (·.toInt?) with
+    | some [idx, nXf, fp, fid, nf, bp, bid, nb, np, nid, nn] =>
+      some (showO (fun (r : Bool × Bool × Bool) => "ok " ++ b01 r.1 ++ " " ++ b01 r.2.1 ++ " " ++ b01 r.2.2)
+        (getStyle { idx := idx, nXf := optN nXf, applyFill := true, fillPresent := fp = 1, fillId := fid, nFills := optN nf,
+                    applyBorder := true, borderPresent := bp = 1, borderId := bid, nBorders := optN nb,
+                    applyFont := true, fontPresent := np = 1, fontId := nid, nFonts := optN nn }))
+    | _ => some "bad-op"
+  | ["as", hv, tab, ids] =>
+    match tab.toInt?, ints ids with
+    | some tab, some ids => some (showO (fun (k : Nat) => "ok " ++ toString k) (activeSheetIndex (hv = "1") tab ids))
+    | _, _ => some "bad-op"
+  | ["df", n, a, b] =>
+    match n.toInt? with
+    | some n => some (showO (fun (r : FontName) => match r with | .name => "ok name" | .empty => "ok empty")
+        (getDefaultFont (optN n) false (a = "1") (b = "1")))
+    | none => some "bad-op"
+  | ["tc", n, z] =>
+    match n.toNat? with
+    | some n => some (showO (fun (_ : Bool) => "ok") (themeColor n (z = "1")))
+    | none => some "bad-op"
+  | ["gc", a, n] =>
+    match a.toInt?, n.toNat? with
+    | some a, some n => some (showO (fun (r : Option Nat) => match r with | some k => "ok " ++ toString k | none => "ok none") (commentAuthor a n))
+    | _, _ => some "bad-op"
+  | ["rt", runs] =>
+    let rs := if runs = "-" then [] else runs.toList.map (· == '1')
+    some (showO (fun (r : List Bool) => "ok " ++ (if r.isEmpty then "-" else String.join (r.map b01))) (richRuns rs))
+  | ["cf", n] =>
+    match n.toNat? with
+    | some n => some (showO (fun (r : CondVal) => match r with | .minMax => "ok minMax" | .value => "ok value" | .none => "ok none") (condFmtCellIs n))
+    | none => some "bad-op"
+  | ["mc", h, col, row] =>
+    match unhexS h, col.toInt?, row.toInt? with
+    | some ref, some col, some row =>
+      -- mergeCellsParser: no rectangle for an empty ref; `ref:ref` unless exactly one ':'; rangeRefToCoordinates; sort
+      if ref.isEmpty then some (showO (fun (_ : Bool) => "ok") (mergeCellHit col row []))
+      else
+        let ref2 := if (ref.filter (· == ':')).length != 1 then ref ++ [':'] ++ ref else ref
+        match Ref.rangeRefToCoordinates ref2 with
+        | .error _ => some "E_REF"
+        | .ok q =>
+          let (a, b, c, d) := Ref.sortCoordinates q
+          some (showO (fun (_ : Bool) => "ok") (mergeCellHit col row [a, b, c, d]))
+    | _, _, _ => some "bad-op"
+  | ["mm", spec] =>
+    let rs : Option (List Rc) := if spec = "-" then some [] else
+      (spec.splitOn ";").mapM fun r => match ints r with
+        | some [a, b, c, d] => some { x1 := a, y1 := b, x2 := c, y2 := d }
+        | _ => none
+    match rs with
+    | some rs => some (showO (fun (_ : Int × Int) => "ok") (mergeMatrix rs))
+    | none => some "bad-op"
+  | ["ch", len, shift, counts] =>
+    match len.toNat?, shift.toNat?, (counts.splitOn ",").mapM (·.toNat?) with
+    | some l, some sh, some cs => some (showO (fun (_ : Unit) => "ok") (checkCfbHeader l sh cs))
+    | _, _, _ => some "bad-op"
+  | ["ag", il, xo, nke, bs, hl, kb, sp, so, sl, eo, el, ko, pl] =>
+    match il.toNat?, nke.toNat?, bs.toInt?, hl.toNat?, kb.toInt?, sp.toInt?, sl.toNat?, el.toNat?, pl.toNat? with
+    | some il, some nke, some bs, some hl, some kb, some sp, some sl, some el, some pl =>
+      some (showO (fun (_ : Unit) => "ok")
+        (agileDecrypt { infoLen := il, xmlOK := xo = "1", nKE := nke, blockSize := bs, hashLen := hl, keyBits := kb,
+                        spinCount := sp, saltOK := so = "1", saltLen := sl, encKeyOK := eo = "1", encKeyLen := el,
+                        kdSaltOK := ko = "1", pkgLen := pl }))
+    | _, _, _, _, _, _, _, _, _ => some "bad-op"
+  | _ => none
+
 def step (w : List String) : String :=
+  match stepSites w with
+  | some r => r
+  | none =>
   match w with
   | ["cs", spec] => match parseSpec spec with
     | some (rows, tbl) => match load rows with
